@@ -159,6 +159,9 @@ class Trend(BaseGridder):
         """
         check_is_fitted(self, ["coef_"])
         easting, northing = n_1d_arrays(np.broadcast_arrays(*coordinates[:2]), 2)
+        # Take powers in floating point (small integer dtypes overflow)
+        easting = easting.astype(np.result_type(easting.dtype, np.float32))
+        northing = northing.astype(np.result_type(northing.dtype, np.float32))
         shape = np.broadcast(*coordinates[:2]).shape
         data = np.zeros(easting.size, dtype=np.result_type(easting.dtype, np.float32))
         combinations = polynomial_power_combinations(self.degree)
@@ -211,6 +214,9 @@ class Trend(BaseGridder):
         easting, northing = n_1d_arrays(coordinates, 2)
         if easting.shape != northing.shape:
             raise ValueError("Coordinate arrays must have the same shape.")
+        # Take powers in floating point (small integer dtypes overflow)
+        easting = easting.astype(np.result_type(easting.dtype, np.float32))
+        northing = northing.astype(np.result_type(northing.dtype, np.float32))
         combinations = polynomial_power_combinations(self.degree)
         ndata = easting.size
         nparams = len(combinations)
